@@ -40,6 +40,7 @@ structure St where
   returned : List (Nat × Bool) := []     -- shutdown calls that went through the full sequence and returned
   accepted : Nat := 0
   refused : Nat := 0
+  execGauge : Int := 1                   -- `exec_inprogress`: +1 in the constructor, -1 inside the `self._shutdown()` guard
 deriving Repr
 
 inductive Act
@@ -55,7 +56,7 @@ def step (s : St) : Act → Option St
   | .subRefuse _ => if s.gate = none ∧ s.flag = true then some { s with refused := s.refused + 1 } else none
   | .subExit t => if s.gate = some t then some { s with gate := none } else none
   | .sdFlip t w =>
-      if s.gate = none ∧ s.flag = false then some { s with flag := true, shutter := some { tid := t, wait := w } } else none
+      if s.gate = none ∧ s.flag = false then some { s with flag := true, shutter := some { tid := t, wait := w }, execGauge := s.execGauge - 1 } else none
   | .sdNoop _ => if s.gate = none ∧ s.flag = true then some s else none
   | .sdSet t =>
       match s.shutter with
